@@ -38,6 +38,11 @@ theorem cond_broadcast_handshake :
     BIND picks never obtain the same turn (what makes `pickRR` an atomic step of the pool model) -/
 theorem rr_cursor_atomic_add : rrCursorAtomicAdds = 1 ∧ rrCursorOtherWrites = 0 := by decide
 
+/-- C09 (F32): the cursor is 64 bits wide — field, atomic add and the reduction modulo the list length
+    alike — which is the modulus `2^64` of the model's `pickRR` and of `rrSlot`: the cycle is unbroken
+    for the first 2^64 BIND picks of a balancer (`rr_fair`), i.e. for every execution that can exist -/
+theorem rr_cursor_width : rrCursorBits = 64 ∧ rrCursorAddBits = 64 ∧ rrCursorModBits = 64 := by decide
+
 /-- C01 / C07 (F22): a completing BIND call reads the connection of its channel only after it holds the
     balancer lock (under which a refresh swaps that connection): the model's completion step, which
     binds the keys to the channel's *current* connection, is atomic with respect to the swap -/
